@@ -278,7 +278,10 @@ pub fn run(scn: &Scenario, record: bool) -> RunResult {
                     continue;
                 }
                 if let Some(op) = s.task.outstanding() {
-                    outs.push(json!({"ep": EP[s.task.ep()], "task": s.task.name(), "op": op, "sid": s.task.cur_sid() as i64}));
+                    // (stream_id() locks the streams mutex: poisoned after a panic of the library => a panic here; that is data too)
+                    let task = &s.task;
+                    let sid = catch_unwind(AssertUnwindSafe(|| task.cur_sid())).unwrap_or(0);
+                    outs.push(json!({"ep": EP[s.task.ep()], "task": s.task.name(), "op": op, "sid": sid as i64}));
                 }
             }
             let (wb, inflight) = {
@@ -733,7 +736,13 @@ fn do_env(op: &EnvOp, w: &Shared, slots: &mut Vec<Slot>, reg: &mut Registry, spa
             for s in slots.iter_mut() {
                 if s.task.is_conn() && s.task.ep() == *ep && !s.done {
                     let mut sim = SimCtx { w, reg, spawn, scn };
+                    let fresh = sim.reg.ping[*ep].is_none();
                     s.task.ctl("ping_handle", 0, &mut sim);
+                    if fresh {
+                        // Connection::ping_pong() is a method of the connection: its owner polls the connection afterwards
+                        // (that poll is what registers the connection's waker with the new handle)
+                        s.flag.woken.store(true, Ordering::SeqCst);
+                    }
                 }
             }
             if let Some(pp) = reg.ping[*ep].take() {
